@@ -301,7 +301,7 @@ pub fn run_memory(ctx: &Ctx) {
                     judge_mem(ctx, &st, &[], mode, keep_caller, "keeps-reader");
                 }
             }
-            if i % 16 == 0 {
+            if i % 16 == 0 || ctx.want_sample() {
                 ctx.sample(json!({"stream": st.desc, "bytes": n, "payload_at": st.payload_at, "head": show(&st.bytes[..n.min(120)])}));
             }
             i += nw;
